@@ -143,7 +143,22 @@ LinearInV(c) == LET X == XOf(c)  a == GDot(c.j, X, VOf(c))  b == GDot(c.j, X, As
 SplitsInA(c) == LET X == XOf(c)  U == VOf(c)  A == AOf(c)
                     z == GDDot(c.j, X, U, [a1 |-> Z3, a2 |-> Z3, Y1 |-> Z3, Y2 |-> Z3])  w == GDot(c.j, X, AsV(A)) IN
                 GDDot(c.j, X, U, A) = [i \in 1..NG(c.j) |-> z[i] + w[i]]
-IdentitiesOK == Mode = "identities" => (DotIsClosedForm(case) /\ DDotIsClosedForm(case) /\ DegreeTwo(case) /\ LinearInV(case) /\ SplitsInA(case))
+\* a change of the unit of length by the factor k (positions, velocities and accelerations of the joint points times k, bases and spins as they
+\* are, the squared reference distance times k^2) multiplies every component of every level by a power of k that depends on the kind of the
+\* component only: fixed distance 2, translations (full or projected) 1, rotation pairs 0.  No length is "small enough to be neglected".
+UnitPower(j) == (IF j.fd THEN <<2>> ELSE <<>>) \o (IF j.full THEN <<1, 1, 1>> ELSE <<>>) \o [i \in 1..Len(j.axes) |-> 1] \o [i \in 1..Len(j.pairs) |-> 0]
+KPow(k, p) == IF p = 0 THEN 1 ELSE IF p = 1 THEN k ELSE k * k
+ScaleJ(j, k) == [j EXCEPT !.d2 = k * k * j.d2]
+ScaleX(X, k) == [X EXCEPT !.r1 = VScale(k, X.r1), !.r2 = VScale(k, X.r2)]
+ScaleV(U, k) == [U EXCEPT !.v1 = VScale(k, U.v1), !.v2 = VScale(k, U.v2)]
+ScaleA(A, k) == [A EXCEPT !.a1 = VScale(k, A.a1), !.a2 = VScale(k, A.a2)]
+Homogeneous(c) ==
+    LET X == XOf(c)  U == VOf(c)  A == AOf(c)  p == UnitPower(c.j) IN
+    \A k \in {2, 3} :
+        /\ G(ScaleJ(c.j, k), ScaleX(X, k)) = [i \in 1..NG(c.j) |-> KPow(k, p[i]) * G(c.j, X)[i]]
+        /\ GDot(ScaleJ(c.j, k), ScaleX(X, k), ScaleV(U, k)) = [i \in 1..NG(c.j) |-> KPow(k, p[i]) * GDot(c.j, X, U)[i]]
+        /\ GDDot(ScaleJ(c.j, k), ScaleX(X, k), ScaleV(U, k), ScaleA(A, k)) = [i \in 1..NG(c.j) |-> KPow(k, p[i]) * GDDot(c.j, X, U, A)[i]]
+IdentitiesOK == Mode = "identities" => (DotIsClosedForm(case) /\ DDotIsClosedForm(case) /\ DegreeTwo(case) /\ LinearInV(case) /\ SplitsInA(case) /\ Homogeneous(case))
 
 \* ------------------------------------------------------------------ mode "trace"
 TraceLog == IF Mode = "trace" THEN ndJsonDeserialize(IOEnv.TRACE_FILE) ELSE <<>>
